@@ -81,6 +81,71 @@ Proof.
   destruct e; cbn in G; try contradiction; auto.
 Qed.
 
+(* int() accepts only what float() models: digits and single underscores *)
+Lemma base_prefix_10 t : base_prefix 10 t = None.
+Proof.
+  unfold base_prefix. destruct t as [|a l]; [reflexivity|].
+  destruct a as [|p|p]; try reflexivity.
+  do 6 (destruct p as [p|p|]; try reflexivity). destruct l; reflexivity.
+Qed.
+
+Definition dig_or_us (c : Z) : bool := ((48 <=? c) && (c <=? 57)) || (c =? 95).
+
+Lemma digit_val_lt10 c d : digit_val c = Some d -> (d <? 10) = true -> (48 <=? c) && (c <=? 57) = true.
+Proof.
+  unfold digit_val. destruct ((48 <=? c) && (c <=? 57)); [reflexivity|].
+  destruct ((97 <=? c) && (c <=? 122)) eqn:E1.
+  - intros H. injection H as <-. intros H. apply Z.ltb_lt in H.
+    apply andb_true_iff in E1. destruct E1 as [E1 _]. apply Z.leb_le in E1. lia.
+  - destruct ((65 <=? c) && (c <=? 90)) eqn:E2; [|discriminate].
+    intros H. injection H as <-. intros H. apply Z.ltb_lt in H.
+    apply andb_true_iff in E2. destruct E2 as [E2 _]. apply Z.leb_le in E2. lia.
+Qed.
+
+Lemma parse_digits_all t : forall acc pd v, parse_digits 10 t acc pd = Some v -> forallb dig_or_us t = true.
+Proof.
+  induction t as [|c t IH]; intros acc pd v; cbn [parse_digits forallb]; [reflexivity|].
+  unfold dig_or_us at 1. destruct (c =? 95) eqn:E95.
+  - rewrite orb_true_r. cbn [andb]. destruct pd; [|discriminate].
+    destruct t as [|c' t']; [discriminate|]. apply IH.
+  - rewrite orb_false_r. destruct (digit_val c) as [d|] eqn:Ed; [|discriminate].
+    destruct (d <? 10) eqn:Elt; [|discriminate].
+    rewrite (digit_val_lt10 c d Ed Elt). cbn [andb]. apply IH.
+Qed.
+
+Lemma split_digits_all t : forall acc n pd, forallb dig_or_us t = true ->
+  split_digits t acc n pd = None \/ exists v m, split_digits t acc n pd = Some (v, m, []).
+Proof.
+  induction t as [|c t IH]; intros acc n pd; cbn [split_digits forallb]; [eauto|].
+  intros H. apply andb_true_iff in H. destruct H as [Hc Ht]. unfold dig_or_us in Hc.
+  destruct ((48 <=? c) && (c <=? 57)) eqn:Ed.
+  - apply IH. exact Ht.
+  - cbn [orb] in Hc. rewrite Hc. destruct pd; [|auto].
+    destruct t as [|d t']; [auto|]. destruct ((48 <=? d) && (d <=? 57)); [|auto].
+    apply IH. exact Ht.
+Qed.
+
+Lemma int_ok_float_modelled s z : non_ascii s = false -> py_int_base s 10 = Ok (VInt z) ->
+  parse_float s <> Raise Unmodelled.
+Proof.
+  intros Hna. unfold py_int_base, parse_float. rewrite Hna.
+  match goal with |- context [match ?E with pair _ _ => _ end] => destruct E as [neg t] end.
+  cbv zeta. rewrite base_prefix_10.
+  destruct (parse_digits 10 t 0 false) as [v|] eqn:Ed; [|discriminate]. intros _.
+  pose proof (parse_digits_all t 0 false v Ed) as Hall.
+  destruct t as [|c t']; [discriminate|].
+  assert (Hc : (c =? 105) || (c =? 73) || (c =? 110) || (c =? 78) = false).
+  { cbn [forallb] in Hall. apply andb_true_iff in Hall. destruct Hall as [Hc _]. unfold dig_or_us in Hc.
+    apply orb_true_iff in Hc. destruct Hc as [Hc|Hc].
+    - apply andb_true_iff in Hc. destruct Hc as [H1 H2]. apply Z.leb_le in H1. apply Z.leb_le in H2.
+      repeat (apply orb_false_iff; split); apply Z.eqb_neq; lia.
+    - apply Z.eqb_eq in Hc. repeat (apply orb_false_iff; split); apply Z.eqb_neq; lia. }
+  rewrite Hc.
+  destruct (split_digits_all (c :: t') 0 0 false Hall) as [-> | (ip & ni & ->)]; [discriminate|].
+  cbv iota beta. destruct ((ni =? 0) && (0 =? 0)); [discriminate|].
+  replace (300 <? Z.abs 0) with false by reflexivity. discriminate.
+Qed.
+
 Definition is_logical_text (s : str) : bool :=
   let u := map ascii_upper s in str_eqb u t_TRUE || str_eqb u t_FALSE || str_eqb u t_EMPTY.
 
@@ -111,12 +176,14 @@ Proof.
     destruct (parse_float_raise s e E) as [-> | ->]; reflexivity.
 Qed.
 
-(* a text operand is inside the model of arithmetic iff it is ASCII and
-   float() of it is inside the model of Lib/Py.v *)
+(* a text operand is inside the model of arithmetic iff it is ASCII and is a
+   TRUE/FALSE/#EMPTY! spelling or float() of it is inside the model of Lib/Py.v
+   (no inf/nan spelling, exponent within +-300) *)
 Definition arith_modelled (v : pyval) : bool :=
   match v with
   | VStr s => negb (non_ascii s)
-              && match parse_float s with Raise Unmodelled => false | _ => true end
+              && (is_logical_text s
+                  || match parse_float s with Raise Unmodelled => false | _ => true end)
   | _ => true
   end.
 
@@ -152,7 +219,7 @@ Qed.
 Lemma text_num_defined s : arith_modelled (VStr s) = true -> exists v, text_num s = Ok v.
 Proof.
   cbn [arith_modelled]. intros H. apply andb_true_iff in H. destruct H as [Hna Hpf].
-  apply negb_true_iff in Hna. unfold text_num. destruct (is_logical_text s); [eauto|].
+  apply negb_true_iff in Hna. unfold text_num. destruct (is_logical_text s); [eauto|]. cbn [orb] in Hpf.
   assert (Hf : exists v, match parse_float s with
                | Ok q => Ok (VFloat q) | Raise ValueError => Ok (VStr s) | Raise e => Raise e end = Ok v).
   { destruct (parse_float s) as [q|e] eqn:E; [eauto|].
@@ -769,20 +836,7 @@ Proof.
       exists v. split; [exact Hf|eapply result_ok_value; eauto].
 Qed.
 
-(* outside the hypotheses the model answers Unmodelled and nothing else:
-   exact for comparisons and & ... *)
-Lemma unmodelled_exact l o r : scalar l -> scalar r ->
-  in_error_codes l = Ok false -> in_error_codes r = Ok false ->
-  is_cmp o = true \/ o = BitAnd ->
-  op_modelled o l = false \/ op_modelled o r = false ->
-  fixup l o r = Raise Unmodelled.
-Proof.
-  intros Hsl Hsr Hel Her [Ho| ->] Hm; unfold op_modelled in Hm.
-  - rewrite Ho in Hm. apply cmp_unmodelled; auto.
-  - cbn [is_cmp] in Hm. apply concat_unmodelled; auto.
-Qed.
-
-(* ... and for arithmetic on a text with a non-ASCII character *)
+(* arithmetic on a text with a non-ASCII character is outside the model *)
 Lemma uni_upper_non_ascii c : (127 <? c) = true -> (127 <? uni_upper c) = true.
 Proof.
   intros H. apply Z.ltb_lt in H. apply Z.ltb_lt. unfold uni_upper, ascii_upper.
@@ -835,6 +889,48 @@ Proof.
     unfold fixup. rewrite Her. cbn [bind]. rewrite He. cbn [bind].
     destruct o; try discriminate Ho; cbn [is_cmp]; rewrite Hr; cbn [bind];
       rewrite (coerce_non_ascii s Hna); reflexivity.
+Qed.
+
+(* an operand outside arith_modelled makes the model answer Unmodelled *)
+Lemma coerce_unmodelled v : scalar v -> arith_modelled v = false ->
+  excelutil.f_coerce_to_number py_fuel v (VBool true) = Raise Unmodelled.
+Proof.
+  destruct v; cbn [scalar arith_modelled]; try contradiction; try discriminate. intros _ Hm.
+  destruct (non_ascii s) eqn:Hna; [apply coerce_non_ascii; exact Hna|].
+  cbn [negb andb] in Hm. apply orb_false_iff in Hm. destruct Hm as [Hl Hp].
+  assert (Hpf : parse_float s = Raise Unmodelled).
+  { destruct (parse_float s) as [q|e]; [discriminate|]. destruct e; try discriminate. reflexivity. }
+  rewrite (coerce_text s Hna). unfold text_num. rewrite Hl, Hpf.
+  destruct (str_contains [46] s); [reflexivity|].
+  destruct (py_int_base_cases s Hna) as [(z & Hz)| ->]; [|reflexivity].
+  exfalso. exact (int_ok_float_modelled s z Hna Hz Hpf).
+Qed.
+
+Lemma arith_unmodelled l o r : scalar l -> scalar r ->
+  in_error_codes l = Ok false -> in_error_codes r = Ok false -> arith_op o = true ->
+  arith_modelled l = false \/ arith_modelled r = false ->
+  fixup l o r = Raise Unmodelled.
+Proof.
+  intros Hsl Hsr Hel Her Ho Hm. unfold fixup. rewrite Hel. cbn [bind]. rewrite Her. cbn [bind].
+  destruct (arith_modelled l) eqn:El.
+  - destruct Hm as [Hm|Hm]; [discriminate|].
+    destruct (coerce_scalar l Hsl El) as (l1 & Hl & _).
+    destruct o; try discriminate Ho; cbn [is_cmp]; rewrite Hl; cbn [bind];
+      rewrite (coerce_unmodelled r Hsr Hm); reflexivity.
+  - destruct o; try discriminate Ho; cbn [is_cmp]; rewrite (coerce_unmodelled l Hsl El); reflexivity.
+Qed.
+
+(* the domain predicate is EXACT for every operator: outside it the model
+   answers Unmodelled and nothing else (^ has the further restriction pow_modelled) *)
+Lemma unmodelled_exact l o r : scalar l -> scalar r ->
+  in_error_codes l = Ok false -> in_error_codes r = Ok false ->
+  op_modelled o l = false \/ op_modelled o r = false ->
+  fixup l o r = Raise Unmodelled.
+Proof.
+  intros Hsl Hsr Hel Her Hm. unfold op_modelled in Hm. destruct (is_cmp o) eqn:Ec.
+  - apply cmp_unmodelled; auto.
+  - destruct o; try discriminate Ec; try (apply arith_unmodelled; auto; fail).
+    apply concat_unmodelled; auto.
 Qed.
 
 (* the domain of ^ in plain terms: the exponent (when a float after coercion)
